@@ -203,8 +203,8 @@ def sections(tier):
     S = run.Section
     secs = []
     for c in (QUICK if tier == 'quick' else THOROUGH):
-        secs.append(S('basis:' + c, basis_laws(c), budget_s=175 if tier == 'quick' else 3000, replayer='basis', config=c, maxpaths=4, timeout_ms=30000))
-        secs.append(S('expand:' + c, expansion_laws(c), budget_s=175 if tier == 'quick' else 3000, replayer='expand', config=c, maxpaths=4, timeout_ms=60000))
+        secs.append(S('basis:' + c, basis_laws(c), budget_s=175 if tier == 'quick' else 1200, replayer='basis', config=c, maxpaths=4, timeout_ms=30000))
+        secs.append(S('expand:' + c, expansion_laws(c), budget_s=175 if tier == 'quick' else 1200, replayer='expand', config=c, maxpaths=4, timeout_ms=60000))
     return secs
 
 
